@@ -741,7 +741,9 @@ def _writer_purity(prog):
                 why = 'the writer changes `%s.data[%r]` of the tree it was given: writing the same tree again ' \
                       '(or with another writer) gives a different result' % (X, k)
                 facts = [x[0] for x in facts_at(cfg, d.node)]
-                if ('none', "%s.data['%s']" % (X, k), True) in facts:
+                tslots = [unparse(t_) for t_ in (d.ast.targets if isinstance(d.ast, ast.Assign) else [])
+                          if isinstance(t_, ast.Subscript)]
+                if ('none', "%s.data['%s']" % (X, k), True) in facts or any(('none', ts_, True) in facts for ts_ in tslots):
                     ok = True
                     why = '(i) None-defaulting: only an absent field is filled with the documented default'
                 elif k == 'word' and any(fa == ('opaque', 'trees.has_children(%s)' % X, True) for fa in facts) \
